@@ -74,3 +74,19 @@ package migrator
 //@   in migrator.(Migrator).MigrateColumn
 //@   min-sites 2
 //@   assert compares-parsed-values: true [C20]
+
+//@ # ---------- C20: a unique constraint is looked for under the name it was created with ----------
+//@ # CreateTable / ParseUniqueConstraints name the constraint after the column (DBName); MigrateColumnUnique must ask
+//@ # for the same name, or a `unique` added later to a renamed column is silently never applied.
+//@ site unique-constraint-named-after-the-column
+//@   match invoke Namer.UniqueName
+//@   in migrator.(Migrator).MigrateColumnUnique$1
+//@   min-sites 1
+//@   assert column-name: arg1 == field.DBName [C20]
+//@ # An empty-string default is a default: the DEFAULT clause is rendered from the parsed value even when the tag's
+//@ # text is empty (otherwise every AutoMigrate run sees a difference and alters the column again).
+//@ site default-clause-for-a-parsed-default
+//@   match invoke Dialector.BindVarTo
+//@   in migrator.(Migrator).FullDataTypeOf
+//@   min-sites 1
+//@   cover reached-with-an-empty-default-text: field.DefaultValue == "" [C20]
